@@ -20,7 +20,10 @@ var evalCodeText = map[int]string{
 	7:  "TryEval result/effects differ from its tree-level meaning",
 	8:  "the implementation's program fails the static stack-bound validation",
 	9:  "registered operators invoked during Compile differ from the model's constant-folding log",
+	14: "event mode, same program as the model's: the events emitted (OP_EXEC payloads, LOOP position/node/stack snapshot) differ from those of the proven evaluation loop on that program",
 	15: "the implementation's optimised tree differs from the model's AND Eval returns something else than the model-optimised tree means",
+	17: "the implementation's optimised tree differs from the model's and Eval returns ANOTHER VALUE than the model-optimised tree (whose value is the source's, by C02's theorem)",
+	16: "the implementation's optimised tree differs from the model's AND TryEval returns something else than the model-optimised tree means",
 	10: "event-mode layout: the structural compiler the C12 theorem is about differs from the transliterated event pass",
 	50: "outside the property's domain (non-boolean operand of and/or): not compared",
 }
@@ -81,6 +84,7 @@ type evalOutcome struct {
 	Case     Case
 	Skipped  string
 	CompileP interface{}
+	Direct   *DirectViolation
 }
 
 func mkEvalCase(sp *EvalSpec) evalOutcome {
@@ -106,6 +110,7 @@ func mkEvalCase(sp *EvalSpec) evalOutcome {
 	if code == 9 {
 		return evalOutcome{Skipped: "harness rendered a source the parser rejects: " + err.Error() + " :: " + src}
 	}
+	var directV *DirectViolation
 	optTerm, progTerm, evalTerm, tryTerm := "None", "None", "None", "None"
 	var ccalls []string
 	for _, o := range b.CompileLog.Log {
@@ -140,6 +145,32 @@ func mkEvalCase(sp *EvalSpec) evalOutcome {
 				tags = append(tags, "eval:value")
 			}
 			nontrivial = nontrivial || len(o.Plain) > 0 || len(vp.Nodes) > 3
+			// the same evaluation through the library's OWN context (NewCtxFromVars: key-indexed or name-indexed
+			// fetcher over the configuration's key map) must give the same answer as the harness's name-indexed fetcher
+			if !rc.Undefined && !rc.Events && !rc.Debug && o.Panic == nil {
+				plain, ok := map[string]interface{}{}, true
+				for _, n := range rc.VarNames {
+					v, bound := sp.Bind.Vals[n]
+					if _, isErr := v.(*UserErr); isErr || !bound {
+						ok = false
+					}
+					plain[n] = v
+				}
+				if ok {
+					var lv eval.Value
+					var lerr error
+					var lpan interface{}
+					guarded(map[string]interface{}{"call": "Eval (library context)", "source": src}, func() {
+						defer func() { lpan = recover() }()
+						lv, lerr = e.Eval(eval.NewCtxFromVars(b.Conf, plain))
+					})
+					if lpan != nil || (lerr == nil) != (o.Err == nil) || (lerr == nil && !valEq(lv, o.Val)) {
+						directV = &DirectViolation{What: "Eval with the library's own context (NewCtxFromVars over the configuration's key map) differs from Eval with a fetcher that reads the same values by name",
+							Sig: "library-ctx-eval", Sample: map[string]interface{}{"source": clip(src, 300), "config": rc.Describe(), "key_map": fmt.Sprint(b.Conf.VariableKeyMap), "values": fmt.Sprint(plain),
+								"library_context": fmt.Sprintf("%v / %v / %v", lv, lerr, lpan), "by_name": fmt.Sprintf("%v / %v", o.Val, o.Err)}}
+					}
+				}
+			}
 		}
 		if sp.DoTry {
 			f := &RecFetcher{Vals: sp.Bind.Vals, Avail: avail, Lazy: sp.Lazy}
@@ -191,7 +222,7 @@ func mkEvalCase(sp *EvalSpec) evalOutcome {
 		sample["available"] = availNames
 	}
 	key := src + "|" + rc.Describe() + "|" + fmt.Sprint(sample["binding"]) + fmt.Sprint(availNames)
-	return evalOutcome{Case: Case{Term: term, Sample: sample, Key: key, Nontrivial: nontrivial, Tags: tags}}
+	return evalOutcome{Case: Case{Term: term, Sample: sample, Key: key, Nontrivial: nontrivial, Tags: tags}, Direct: directV}
 }
 
 func bucket(n int) string {
@@ -245,6 +276,9 @@ func addEval(c *RunCtx, b *Batch, sp *EvalSpec) {
 		c.Notes = append(c.Notes, o.Skipped)
 		return
 	}
+	if o.Direct != nil && len(c.Direct) < 50 {
+		c.Direct = append(c.Direct, *o.Direct)
+	}
 	b.Cases = append(b.Cases, o.Case)
 }
 
@@ -276,7 +310,7 @@ func genC01(c *RunCtx) []*Batch {
 		if t.Kind != "op" && t.Kind != "if" {
 			t = gop("c_id", t)
 		}
-		rc := &RunCfg{Opts: optSubset(0, false), Undefined: r.Intn(5) == 0, Events: false}
+		rc := &RunCfg{Opts: optSubset(0, false), Undefined: r.Intn(5) == 0, Events: false, KeyGap: r.Intn(3) == 0}
 		nb := 1 + r.Intn(2)
 		for j := 0; j < nb; j++ {
 			addEval(c, b, &EvalSpec{Tree: t, RC: rc, Bind: randBinding(r), DoEval: true, DoTry: false})
@@ -293,6 +327,13 @@ func genC01(c *RunCtx) []*Batch {
 func randTree(r *Rand, gc GenCfg) *GT {
 	g := &Gen{r: r, c: gc}
 	var t *GT
+	if r.Intn(8) == 0 {
+		t = logicNest(r, 2+r.Intn(2))
+		if t.Kind != "op" {
+			t = gop("c_id", t)
+		}
+		return t
+	}
 	if r.Intn(3) == 0 {
 		t = g.Int(gc.MaxDepth)
 	} else {
@@ -437,6 +478,12 @@ func init() {
 				for _, mask := range []int{15, r.Intn(16), 0} {
 					rc := &RunCfg{Opts: optSubset(mask, r.Bool()), Stateless: st, Costs: costs, Events: r.Intn(6) == 0}
 					bd := randBinding(r)
+					if r.Intn(5) == 0 { // available variables whose value is nil (a JSON null; a registered variable nobody supplied)
+						bd.Vals[pick(r, intVars)] = nil
+						if r.Bool() {
+							bd.Vals[pick(r, boolVars)] = nil
+						}
+					}
 					var av map[string]bool
 					if r.Intn(5) != 0 {
 						av = randAvail(r, bd)
@@ -463,21 +510,21 @@ func init() {
 		ID:   "C04",
 		Rule: "random trees (incl. failing sub-expressions) x optimisation subsets x random available/unavailable splits x bindings, TryEval run with a truthful loading fetcher (Cached reports the split, Get would succeed for every variable) and compared with the tree-level meaning of TryEval `trysem` (outcome and fetch/call effects, so a read of an unavailable variable is visible); Eval on the full binding compared with `sem`; non-trivial = every case; distinct = distinct (source, config, binding, split)",
 		Assumptions: []string{"the fetcher reports availability truthfully"},
-		Behav:       []int{7, 5, 2}, Fidelity: []int{3, 6, 4, 8, 10, 15}, Ignore: []int{50, 1}, CodeText: evalCodeText,
+		Behav:       []int{7, 5, 2, 16}, Fidelity: []int{3, 6, 4, 8, 10, 15}, Ignore: []int{50, 1}, CodeText: evalCodeText,
 		Gen:         tryGen("C04", true),
 	})
 	register(&PropDef{
 		ID:   "C05",
 		Rule: "as C04 but without failing variables or wrong-typed operands (the property's domain: sub-expressions do not fail), DNE variables placed anywhere; TryEval compared with `trysem`, which the theorem equates with strong Kleene evaluation on non-failing expressions; event mode on for a sixth of the cases",
 		Assumptions: []string{"the fetcher reports availability truthfully"},
-		Behav:       []int{7, 2}, Fidelity: []int{3, 6, 8, 10, 15}, Ignore: []int{50, 1, 4, 5}, CodeText: evalCodeText,
+		Behav:       []int{7, 2, 16}, Fidelity: []int{3, 6, 8, 10, 15}, Ignore: []int{50, 1, 4, 5}, CodeText: evalCodeText,
 		Gen:         tryGen("C05", false),
 	})
 	register(&PropDef{
 		ID:   "C12",
 		Rule: "random trees x optimisation subsets x {ReportEvent, Debug} x {Eval, TryEval}: the OP_EXEC/LOOP events read from a buffered channel after the call returned (a retaining consumer) are compared with the model's observation stream (operator name, fast flag, arguments at call time, result or error; LOOP position, node and stack snapshot); Dump, Eval and TryEval results compared directly with the same source compiled without the event options; non-trivial = at least one OP_EXEC event; distinct = distinct (source, config, binding)",
 		Assumptions: []string{"events are consumed from a channel with enough capacity, after the evaluation returned (consumer timing: retained); synchronous consumers are exercised by C07's concurrent runs"},
-		Behav:       []int{5, 7, 2}, Fidelity: []int{3, 4, 6, 8, 10, 15}, Ignore: []int{50, 1}, CodeText: evalCodeText,
+		Behav:       []int{5, 7, 2, 14}, Fidelity: []int{3, 4, 6, 8, 10, 15}, Ignore: []int{50, 1}, CodeText: evalCodeText,
 		Gen: func(c *RunCtx) []*Batch {
 			r := c.R
 			b := evalBatch("C12", "events")
